@@ -10,17 +10,24 @@ use crate::model::{Built, GraphSpec, Mask, BK, EK};
 /// 128 distinct marker data types.
 pub struct D<const N: usize>;
 
+/// 128 more: the "twin" of data type t. A function that declares D<t> may declare E<t> next to
+/// it with the same mode (see `ids`), which never changes who conflicts with whom but lets one
+/// graph carry up to 256 distinct TypeIds - more than fit into any machine-word bit mask.
+pub struct E<const N: usize>;
+
 macro_rules! type_ids_table {
-    ($t:expr; $($n:literal)*) => {
-        match $t {
-            $( $n => TypeId::of::<D<$n>>(), )*
-            _ => TypeId::of::<D<127>>(),
+    ($t:expr; $twin:expr; $($n:literal)*) => {
+        match ($t, $twin) {
+            $( ($n, false) => TypeId::of::<D<$n>>(), )*
+            $( ($n, true) => TypeId::of::<E<$n>>(), )*
+            (_, false) => TypeId::of::<D<127>>(),
+            (_, true) => TypeId::of::<E<127>>(),
         }
     };
 }
 
-fn type_id_of(t: usize) -> TypeId {
-    type_ids_table!(t;
+fn type_id_of(t: usize, twin: bool) -> TypeId {
+    type_ids_table!(t; twin;
         0 1 2 3 4 5 6 7 8 9 10 11 12 13 14 15 16 17 18 19 20 21 22 23 24 25 26 27 28 29 30 31
         32 33 34 35 36 37 38 39 40 41 42 43 44 45 46 47 48 49 50 51 52 53 54 55 56 57 58 59 60 61 62 63
         64 65 66 67 68 69 70 71 72 73 74 75 76 77 78 79 80 81 82 83 84 85 86 87 88 89 90 91 92 93 94 95
@@ -51,7 +58,7 @@ impl PartialEq for TFn {
 }
 impl Eq for TFn {}
 
-/// The declaration list for a mask. The list is a *list*, not a set: depending on `salt` (the
+/// The declaration list for a mask (plus twin types, see `E`). The list is a *list*, not a set: depending on `salt` (the
 /// function's index) it is rotated (so it is not in any canonical order) and, one time in three,
 /// repeats its first entry at the end (`fn f(a: &A, b: &B, c: &A)` declares A twice). The model
 /// works on the set, which is all the properties speak about.
@@ -60,7 +67,12 @@ fn ids(mask: Mask, salt: usize) -> TypeIds {
     let mut m = mask;
     while m != 0 {
         let t = m.trailing_zeros() as usize;
-        tmp.push(type_id_of(t));
+        tmp.push(type_id_of(t, false));
+        if (salt + t) % 2 == 0 {
+            // the twin type, same mode: the conflict relation is unchanged (whoever lists E<t>
+            // also lists D<t> in the same mode)
+            tmp.push(type_id_of(t, true));
+        }
         m &= m - 1;
     }
     let mut v = TypeIds::new();
